@@ -45,9 +45,13 @@ func TestVerifC21ServeFail(t *testing.T) {
 		"CREATE TABLE a (seq INTEGER PRIMARY KEY, v INTEGER)",
 		"CREATE TABLE acct (id INTEGER PRIMARY KEY, bal INTEGER)",
 		"CREATE TABLE b (seq INTEGER PRIMARY KEY, v INTEGER)",
-		"INSERT INTO acct(id, bal) VALUES(1, 500)", "INSERT INTO acct(id, bal) VALUES(2, 500)"}, false, false))
+		"INSERT INTO acct(id, bal) VALUES(1, 500)", "INSERT INTO acct(id, bal) VALUES(2, 500)",
+		"CREATE TABLE schemaver (g INTEGER)", "INSERT INTO schemaver(g) VALUES(0)"}, false, false))
 	if err != nil || res[0].GetError() != "" {
 		t.Fatalf("schema: %v %v", err, res)
+	}
+	if _, _, err := s.Execute(context.Background(), executeRequestFromStrings(c21GenCreate(0), false, true)); err != nil {
+		t.Fatalf("schema generation 0: %v", err)
 	}
 	for k := int64(1); k <= 40; k++ {
 		v := c21V(k)
@@ -57,6 +61,13 @@ func TestVerifC21ServeFail(t *testing.T) {
 			fmt.Sprintf("UPDATE acct SET bal = bal + %d WHERE id = 2", v),
 			fmt.Sprintf("INSERT INTO b(seq, v) VALUES(%d, %d)", k, v)}, false, true)); err != nil {
 			t.Fatalf("write: %v", err)
+		}
+		if k%c21GenEvery == 0 {
+			g := k / c21GenEvery
+			stmts := append(append(c21GenCreate(g), c21GenDrop(g-1)...), fmt.Sprintf("UPDATE schemaver SET g = %d", g))
+			if _, _, err := s.Execute(context.Background(), executeRequestFromStrings(stmts, false, true)); err != nil {
+				t.Fatalf("schema transaction: %v", err)
+			}
 		}
 	}
 
